@@ -83,6 +83,7 @@ def build_objs(variant):
             os.utime(d, None)
             return d
         os.makedirs(d, exist_ok=True)
+        open(os.path.join(d, ".src"), "w").write(NV_SRC)
         procs = []
         for o in OBJS:
             cmd = ["gcc", "-c"] + flags + ["-I", NV_SRC]
@@ -110,6 +111,7 @@ def build_stock():
         os.makedirs(d, exist_ok=True)
         for p in src_files() + [os.path.join(NV_SRC, "Makefile")]:
             shutil.copy(p, d)
+        open(os.path.join(d, ".src"), "w").write(NV_SRC)
         r = sh(["make", "-C", d, "vi"], stdout=subprocess.PIPE, stderr=subprocess.STDOUT)
         if r.returncode:
             raise HarnessError("stock build failed:\n" + r.stdout.decode(errors="replace"))
@@ -131,6 +133,7 @@ def build_stock_asan():
         os.makedirs(d, exist_ok=True)
         for p in src_files() + [os.path.join(NV_SRC, "Makefile")]:
             shutil.copy(p, d)
+        open(os.path.join(d, ".src"), "w").write(NV_SRC)
         r = sh(["make", "-C", d, "vi", "CFLAGS=-O1 -g -fsanitize=address -fno-omit-frame-pointer -w",
                 "LDFLAGS=-fsanitize=address"], stdout=subprocess.PIPE, stderr=subprocess.STDOUT)
         if r.returncode:
@@ -406,8 +409,10 @@ def finish(pid, tier, t0, res, cov_extra, assumptions, level="model_checking"):
         "level": level, "coverage": cov, "assumptions": assumptions,
         "wall_s": round(time.time() - t0, 2), "violations": nviol,
     }
-    os.makedirs(os.path.join(VERIF, "evidence"), exist_ok=True)
-    with open(os.path.join(VERIF, "evidence", pid + ".json"), "w") as f:
+    # NV_EVIDENCE_DIR: used by the selftests (mutants, seeded changes) so that they do not overwrite evidence/
+    evdir = os.environ.get("NV_EVIDENCE_DIR") or os.path.join(VERIF, "evidence")
+    os.makedirs(evdir, exist_ok=True)
+    with open(os.path.join(evdir, pid + ".json"), "w") as f:
         json.dump(ev, f, indent=1, sort_keys=True)
         f.write("\n")
     if res.errs:
